@@ -54,12 +54,13 @@ func c16Kinds(ds []Diag) []string {
 }
 
 // c16Evaluate iterates -F and judges the outcome.
-func c16Evaluate(ctx *Ctx, dir string, tf c04Files) ([]c04Finding, *c16Obs) {
+func c16Evaluate(ctx *Ctx, dir string, tf c04Files, targets []string) ([]c04Finding, *c16Obs) {
+	cfg := c04Cfg{Targets: targets}
 	obs := &c16Obs{}
 	var fs []c04Finding
 	add := func(key, what string) { fs = append(fs, c04Finding{key, what}) }
 
-	probe := c04Run(ctx, filepath.Join(dir, "probe"), tf, c04Cfg{}, "show")
+	probe := c04Run(ctx, filepath.Join(dir, "probe"), tf, cfg, "show")
 	if probe.crashed() {
 		obs.Crashed = true
 		return nil, obs
@@ -71,7 +72,7 @@ func c16Evaluate(ctx *Ctx, dir string, tf c04Files) ([]c04Finding, *c16Obs) {
 	cur := tf
 	states := []string{tf.Hash()}
 	for p := 1; p <= c16MaxPasses; p++ {
-		r := RunPkglint(ctx, work, 20*time.Second, "-Wall", "-F", "-r", ".")
+		r := RunPkglint(ctx, work, 20*time.Second, cfg.Args("fix")...)
 		if c16Crashed(r) {
 			obs.Crashed = true
 			return nil, obs
@@ -117,33 +118,33 @@ func c16Evaluate(ctx *Ctx, dir string, tf c04Files) ([]c04Finding, *c16Obs) {
 	}
 	last := obs.Passes[len(obs.Passes)-1]
 	if !obs.Converged {
-		add("C16/no-fixed-point/"+strings.Join(c16FixSites(ctx, dir, cur), "+"),
-			fmt.Sprintf("after %d passes of pkglint -F the tree still changes: pass %d rewrote %v (%d AUTOFIX lines, e.g. %q)", c16MaxPasses, c16MaxPasses, last.Changed, len(last.Fixes), c16First(last.Fixes)))
+		add("C16/no-fixed-point/"+strings.Join(c16FixSites(ctx, dir, cur, cfg), "+"),
+			fmt.Sprintf("[%s] after %d passes of pkglint -F the tree still changes: pass %d rewrote %v (%d AUTOFIX lines, e.g. %q)", cfg, c16MaxPasses, c16MaxPasses, last.Changed, len(last.Fixes), c16First(last.Fixes)))
 		return fs, obs
 	}
 	if obs.Changing > c16MaxChangingPasses {
-		add("C16/too-many-passes/"+strings.Join(c16FixSites(ctx, dir, obs.Passes[obs.Changing-1].After), "+"),
+		add("C16/too-many-passes/"+strings.Join(c16FixSites(ctx, dir, obs.Passes[obs.Changing-1].After, cfg), "+"),
 			fmt.Sprintf("%d passes of pkglint -F changed the tree before it settled", obs.Changing))
 	}
 	// the fixed point is quiet
 	final := last.After
-	obs.FinalShow = c04Run(ctx, filepath.Join(dir, "final-show"), final, c04Cfg{}, "show")
-	obs.FinalDefault = c04Run(ctx, filepath.Join(dir, "final-default"), final, c04Cfg{}, "default")
+	obs.FinalShow = c04Run(ctx, filepath.Join(dir, "final-show"), final, cfg, "show")
+	obs.FinalDefault = c04Run(ctx, filepath.Join(dir, "final-default"), final, cfg, "default")
 	if obs.FinalShow.crashed() || obs.FinalDefault.crashed() {
 		obs.Crashed = true
 		return nil, obs
 	}
 	if n := len(obs.FinalShow.Fixes); n > 0 {
 		add("C16/fixed-point-not-quiet/-f/"+strings.Join(c16Kinds(obs.FinalShow.Diags), "+"),
-			fmt.Sprintf("a further pkglint -F leaves the tree unchanged after %d passes, but pkglint -f still prints %d AUTOFIX lines, e.g. %q", obs.Changing, n, obs.FinalShow.Fixes[0].Raw))
+			fmt.Sprintf("[%s] a further pkglint -F leaves the tree unchanged after %d passes, but pkglint -f still prints %d AUTOFIX lines, e.g. %q", cfg, obs.Changing, n, obs.FinalShow.Fixes[0].Raw))
 	}
 	if obs.FinalDefault.HintFix || obs.FinalDefault.HintShow {
 		add("C16/fixed-point-not-quiet/hint/"+strings.Join(c16Kinds(obs.FinalShow.Diags), "+"),
-			fmt.Sprintf("a further pkglint -F leaves the tree unchanged after %d passes, but the default run still offers automatic fixing", obs.Changing))
+			fmt.Sprintf("[%s] a further pkglint -F leaves the tree unchanged after %d passes, but the default run still offers automatic fixing", cfg, obs.Changing))
 	}
 	if len(last.Fixes) > 0 {
 		add("C16/fixed-point-not-quiet/-F-logs-without-changing/"+strings.Join(c16Kinds(obs.FinalShow.Diags), "+"),
-			fmt.Sprintf("pass %d of pkglint -F printed %d AUTOFIX lines (e.g. %q) and changed nothing", len(obs.Passes), len(last.Fixes), last.Fixes[0].Raw))
+			fmt.Sprintf("[%s] pass %d of pkglint -F printed %d AUTOFIX lines (e.g. %q) and changed nothing", cfg, len(obs.Passes), len(last.Fixes), last.Fixes[0].Raw))
 	}
 	return fs, obs
 }
@@ -156,8 +157,8 @@ func c16First(ds []Diag) string {
 }
 
 // the diagnostics that still come with a fix on tree tf (names the fix sites in a key)
-func c16FixSites(ctx *Ctx, dir string, tf c04Files) []string {
-	o := c04Run(ctx, filepath.Join(dir, "sites"), tf, c04Cfg{}, "show")
+func c16FixSites(ctx *Ctx, dir string, tf c04Files, cfg c04Cfg) []string {
+	o := c04Run(ctx, filepath.Join(dir, "sites"), tf, cfg, "show")
 	return c16Kinds(o.Diags)
 }
 
@@ -166,12 +167,13 @@ func c16WholeRun(ctx *Ctx, res *Result, rng *Rng, ntrees int) {
 	type outcome struct {
 		findings []c04Finding
 		tree     c04Files
+		targets  []string
 	}
 	rngs := make([]*Rng, ntrees)
 	for i := range rngs {
 		rngs[i] = rng.Fork()
 	}
-	outcomes := make([]outcome, ntrees)
+	outcomes := make([][]outcome, ntrees)
 	parallelFor(ntrees, func(i int) {
 		r := rngs[i]
 		dir := filepath.Join(ctx.Work, fmt.Sprintf("c16w%d", i))
@@ -183,7 +185,7 @@ func c16WholeRun(ctx *Ctx, res *Result, rng *Rng, ntrees int) {
 		if i%4 != 0 {
 			c04Augment(r.Fork(), tf, g.Pkgs, opts.Density, g.Features)
 		}
-		fs, obs := c16Evaluate(ctx, dir, tf)
+		fs, obs := c16Evaluate(ctx, dir, tf, nil)
 		res.mu.Lock()
 		res.Evaluations++
 		res.TracesValidated += len(obs.Passes) + 3
@@ -228,36 +230,73 @@ func c16WholeRun(ctx *Ctx, res *Result, rng *Rng, ntrees int) {
 				"autofix_lines_per_pass": c16Counts(obs.Passes)})
 		}
 		if len(fs) > 0 {
-			outcomes[i] = outcome{fs, tf}
+			outcomes[i] = append(outcomes[i], outcome{fs, tf, nil})
+		}
+		// the same start tree with other command-line targets: one package
+		// directory, single files of every kind, several targets at once
+		for _, cfg := range c04TargetConfigs(r.Fork(), tf, i) {
+			fs, obs := c16Evaluate(ctx, dir, tf, cfg.Targets)
+			res.mu.Lock()
+			res.Evaluations++
+			res.TracesValidated += len(obs.Passes) + 3
+			res.mu.Unlock()
+			if obs.Crashed {
+				res.Count("whole.crashed-runs(skipped)", 1)
+				continue
+			}
+			tk := cfg.TargetKind(tf)
+			res.Count("whole.target "+tk, 1)
+			if len(obs.Kinds1) > 0 {
+				res.Count("whole.target-with-fix "+tk, 1)
+			}
+			if obs.Converged {
+				res.Count(fmt.Sprintf("whole.target-runs passes-needed=%d", obs.Changing), 1)
+			}
+			if len(fs) > 0 {
+				outcomes[i] = append(outcomes[i], outcome{fs, tf, cfg.Targets})
+			}
 		}
 	})
 	doneKeys := map[string]bool{}
 	for i := range outcomes {
-		oc := outcomes[i]
-		for _, f := range oc.findings {
-			if doneKeys[f.Key] {
-				continue
-			}
-			doneKeys[f.Key] = true
-			dir := filepath.Join(ctx.Work, "c16shrink")
-			what := f.What
-			has := func(t c04Files) bool {
-				fs, _ := c16Evaluate(ctx, dir, t)
-				for _, g := range fs {
-					if g.Key == f.Key {
-						what = g.What
-						return true
-					}
+		for _, oc := range outcomes[i] {
+			for _, f := range oc.findings {
+				if doneKeys[f.Key] {
+					continue
 				}
-				return false
+				doneKeys[f.Key] = true
+				dir := filepath.Join(ctx.Work, "c16shrink")
+				what := f.What
+				has := func(t c04Files) bool {
+					for _, tg := range oc.targets { // a target must still exist
+						if _, isFile := oc.tree[tg]; isFile {
+							if _, still := t[tg]; !still {
+								return false
+							}
+						}
+					}
+					fs, _ := c16Evaluate(ctx, dir, t, oc.targets)
+					for _, g := range fs {
+						if g.Key == f.Key {
+							what = g.What
+							return true
+						}
+					}
+					return false
+				}
+				small := c04ShrinkTree(oc.tree, base, 120, has)
+				has(small)
+				os.RemoveAll(dir)
+				rep := small.ToReplay(base)
+				rep["kind"] = "whole"
+				tg := []any{}
+				for _, t := range oc.targets {
+					tg = append(tg, t)
+				}
+				rep["targets"] = tg
+				rep["argv"] = strings.Join(c04Cfg{Targets: oc.targets}.Args("fix"), " ") + "  (repeated), then the same with -f and without option"
+				res.AddViolation(Violation{Key: f.Key, What: what, FoundInput: true, Size: small.Size(), Replay: rep})
 			}
-			small := c04ShrinkTree(oc.tree, base, 120, has)
-			has(small)
-			os.RemoveAll(dir)
-			rep := small.ToReplay(base)
-			rep["kind"] = "whole"
-			rep["argv"] = "-Wall -F -r .  (repeated), then -Wall -f -r . and -Wall -r ."
-			res.AddViolation(Violation{Key: f.Key, What: what, FoundInput: true, Size: small.Size(), Replay: rep})
 		}
 	}
 }
@@ -291,11 +330,19 @@ func c16Pow2(n int) int {
 func c16ReplayWhole(ctx *Ctx, res *Result, rep map[string]any) {
 	base := c04BaseTree(ctx.Work)
 	tf := c04TreeFromReplay(base, rep)
+	var targets []string
+	if ts, ok := rep["targets"].([]any); ok {
+		for _, t := range ts {
+			if s, ok := t.(string); ok {
+				targets = append(targets, s)
+			}
+		}
+	}
 	dir := filepath.Join(ctx.Work, "c16replay")
-	fs, obs := c16Evaluate(ctx, dir, tf)
+	fs, obs := c16Evaluate(ctx, dir, tf, targets)
 	res.Evaluations++
 	for p, pass := range obs.Passes {
-		fmt.Printf("== pass %d: pkglint -Wall -F -r .   (exit %d)\n%s-- rewritten: %v\n", p+1, pass.Res.Exit, pass.Res.Stdout, pass.Changed)
+		fmt.Printf("== pass %d: pkglint %s   (exit %d)\n%s-- rewritten: %v\n", p+1, strings.Join(c04Cfg{Targets: targets}.Args("fix"), " "), pass.Res.Exit, pass.Res.Stdout, pass.Changed)
 	}
 	if obs.FinalShow != nil {
 		fmt.Printf("== final: pkglint -Wall -f -r .\n%s== final: pkglint -Wall -r .\n%s", obs.FinalShow.Res.Stdout, obs.FinalDefault.Res.Stdout)
@@ -303,6 +350,7 @@ func c16ReplayWhole(ctx *Ctx, res *Result, rep map[string]any) {
 	for _, f := range fs {
 		rep2 := tf.ToReplay(base)
 		rep2["kind"] = "whole"
+		rep2["targets"] = rep["targets"]
 		res.AddViolation(Violation{Key: f.Key, What: f.What, FoundInput: true, Size: tf.Size(), Replay: rep2})
 	}
 }
@@ -351,6 +399,16 @@ func c16Floors(res *Result, ntrees int) {
 		}
 		_ = n
 		_ = get
+	}
+	for _, k := range []string{"file Makefile", "file *.mk", "file PLIST", "file distinfo", "file DESCR", "file patch", "file category Makefile", "directory", "several targets"} {
+		if n, _ := res.Distribution["whole.target "+k].(int); n < 5 && res.Broken == "" {
+			res.Broken = fmt.Sprintf("command-line target kind %q reached only %d times", k, n)
+		}
+	}
+	for _, k := range []string{"file Makefile", "file PLIST", "file distinfo"} {
+		if n, _ := res.Distribution["whole.target-with-fix "+k].(int); n < 3 && res.Broken == "" {
+			res.Broken = fmt.Sprintf("command-line target kind %q fired a fix only %d times", k, n)
+		}
 	}
 	var kinds []string
 	for d := range res.Distribution {
